@@ -1,6 +1,7 @@
 package drv
 
 import (
+	"sort"
 	"bufio"
 	"encoding/json"
 	"fmt"
@@ -48,6 +49,9 @@ type TunParams struct {
 	// CarryCookie: the tunnel request carries the session cookie of the browser that downloaded the connection file
 	// (the client address of a request is the address it comes from, whatever session it belongs to)
 	CarryCookie bool `json:"carryCookie,omitempty"`
+	// LoginGroup: tunnels of one group present connection files downloaded by ONE logged-in browser session (same
+	// user, same IdP access token) - for different hosts
+	LoginGroup string `json:"loginGroup,omitempty"`
 }
 
 func LoadScripts(path string) ([]Script, error) {
@@ -382,6 +386,11 @@ func (ps *ProtoSession) Step(k int) (Reaction, error) {
 	if err != nil {
 		return Reaction{}, err
 	}
+	// connections the loopback hosts have seen so far (the environment's own view of who was connected to)
+	before := map[string]int{}
+	for name, be := range i.Backends {
+		before[name] = be.NConns()
+	}
 	r, err := ps.T.Step(pkt)
 	if err != nil {
 		return r, fmt.Errorf("script %s step %s: %w", s.ID, kind, err)
@@ -395,7 +404,27 @@ func (ps *ProtoSession) Step(k int) (Reaction, error) {
 		hint := append([][]string{syms(st, "name"), {str(st, "port", "")}, ps.PC.UserSyms}, cfg.Hosts...)
 		dials = append(dials, i.Abs(h, hint))
 	}
-	lo := M{"resps": resps, "dials": dials, "dialsraw": append([]string{}, r.Dials...), "conn": r.Conn, "nfwd": r.NFwd, "fwdbytes": r.FwdBytes, "end": r.End, "skipped": r.Skipped}
+	hostconns := []interface{}{}
+	if kind == "chan" {
+		time.Sleep(2 * time.Millisecond)
+		ipSym := map[string]string{"127.0.0.1": "H1", "127.0.0.2": "H2", "::1": "H6"}
+		names := []string{}
+		for name := range i.Backends {
+			names = append(names, name)
+		}
+		sort.Strings(names)
+		for _, name := range names {
+			be := i.Backends[name]
+			if be.NConns() > before[name] {
+				port := "P" + name
+				if name == "F" {
+					port = "PD"
+				}
+				hostconns = append(hostconns, []string{ipSym[be.IP], ":", port})
+			}
+		}
+	}
+	lo := M{"hostconns": hostconns, "resps": resps, "dials": dials, "dialsraw": append([]string{}, r.Dials...), "conn": r.Conn, "nfwd": r.NFwd, "fwdbytes": r.FwdBytes, "end": r.End, "skipped": r.Skipped}
 	ps.Lines = append(ps.Lines, M{"ev": "pkt", "p": lp, "o": lo})
 	return r, nil
 }
@@ -431,7 +460,7 @@ func (ps *ProtoSession) Finish() {
 			rs = append(rs, M{"pt": 0, "status": []int{-1, -1}, "wf": false, "hdrlen": 0, "wirelen": 0, "fields": -1, "caps": -1, "major": -1, "minor": -1, "redir": []int{-1, -1}, "idle": []int{-1, -1}})
 		}
 		ps.Lines = append(ps.Lines, M{"ev": "pkt", "p": M{"k": "other", "cls": "valid", "afterend": true},
-			"o": M{"resps": rs, "dials": dials, "conn": false, "nfwd": nf, "fwdbytes": 0, "end": true, "skipped": false}})
+			"o": M{"hostconns": []interface{}{}, "resps": rs, "dials": dials, "conn": false, "nfwd": nf, "fwdbytes": 0, "end": true, "skipped": false}})
 	}
 }
 
